@@ -67,26 +67,28 @@ FILES = [CQ, RT, LIM, ES, PR, CH, BLD, MT, TP, "des/src/net/path.rs", "des/src/n
 
 
 def run_pack(root, repo, only_prop=None):
+    """Each mutation is applied to ONE complete scratch copy of the tree (outside /repo and /verif, removed at the end), so that the
+    bounded stand-ins can be built against it too (their cargo target directory is reused between mutations)."""
     res = {"applied": 0, "killed": 0, "survived": [], "kept_green": 0, "false_alarm": [], "undecided": [], "not_applicable": []}
-    for mid, prop, f, pat, rep, exp in PACK:
-        if only_prop and prop != only_prop:
-            continue
-        tmp = tempfile.mkdtemp(prefix="mutpack-", dir="/var/tmp")
-        try:
-            for ff in FILES:
-                src = os.path.join(repo, ff)
-                if os.path.exists(src):
-                    os.makedirs(os.path.dirname(os.path.join(tmp, ff)), exist_ok=True)
-                    shutil.copy(src, os.path.join(tmp, ff))
+    tmp = os.path.join("/var/tmp", "mutpack-tree-%d" % os.getpid())
+    shutil.rmtree(tmp, ignore_errors=True)
+    shutil.copytree(repo, tmp, ignore=shutil.ignore_patterns("target", ".git"))
+    try:
+        for mid, prop, f, pat, rep, exp in PACK:
+            if only_prop and prop != only_prop:
+                continue
             p = os.path.join(tmp, f)
-            text = open(p, encoding="utf8").read()
+            text = open(os.path.join(repo, f), encoding="utf8").read()
             new, n = re.subn(pat, rep, text, count=1)
             if n == 0:
                 res["not_applicable"].append(mid)
                 continue
             open(p, "w", encoding="utf8").write(new)
-            env = dict(os.environ, VERIF_REPO=tmp, VERIF_TIER="quick", VERIF_NO_EVIDENCE="1")
-            r = subprocess.run([os.path.join(root, "check"), prop, "--tier", "quick"], cwd=root, env=env, stdout=subprocess.PIPE, stderr=subprocess.STDOUT)
+            try:
+                env = dict(os.environ, VERIF_REPO=tmp, VERIF_TIER="quick", VERIF_NO_EVIDENCE="1", VERIF_KEEP_CACHE="1")
+                r = subprocess.run([os.path.join(root, "check"), prop, "--tier", "quick"], cwd=root, env=env, stdout=subprocess.PIPE, stderr=subprocess.STDOUT)
+            finally:
+                open(p, "w", encoding="utf8").write(text)
             res["applied"] += 1
             if exp == "kill":
                 if r.returncode == 1:
@@ -102,8 +104,18 @@ def run_pack(root, repo, only_prop=None):
                     res["undecided"].append(mid)
                 else:
                     res["false_alarm"].append(mid)
-        finally:
-            shutil.rmtree(tmp, ignore_errors=True)
+    finally:
+        shutil.rmtree(tmp, ignore_errors=True)
+        # the stand-ins' build caches for the scratch tree
+        try:
+            import hashlib
+            tag = hashlib.sha1(tmp.encode()).hexdigest()[:8]
+            base = os.environ.get("VERIF_WORK", "/var/tmp/des-verif-work")
+            for d in os.listdir(base):
+                if d.endswith("-" + tag):
+                    shutil.rmtree(os.path.join(base, d), ignore_errors=True)
+        except Exception:
+            pass
     return res
 
 
